@@ -182,10 +182,9 @@ func observe(u *setUnderTest, m model, queries *int64) string {
 	if u.equal(nil) {
 		return "Equal(nil)=true for a non-nil set"
 	}
+	// String / MapSetToString are only required not to panic: their format is not part of the property
 	*queries++
-	if got, exp := u.str(), fmt.Sprintf("%v", want); got != exp {
-		return fmt.Sprintf("String=%q, expected %q", got, exp)
-	}
+	_ = u.str()
 	return ""
 }
 
@@ -309,7 +308,7 @@ func TestSets(t *testing.T) {
 		}
 	}
 	r.Exhaustive(fmt.Sprintf("MapSet[int] and SortedSliceSet[int]: every sequence of %d operations over {Add,Delete}x{1..%d}, Clear, clone-continue, clone-keep from 3 initial contents, all queries after every operation", depth, universe))
-	r.Sample(map[string]any{"history": []string{"New([3 1 3 2])", "Add(4)", "s=s.Clone() (origin kept frozen)", "Delete(1)", "Clear", "Add(2)"}, "observed_after_each_op": "Has x6, Len, Values, Range with every early stop, Equal x7, String; same on the frozen clone partner"})
+	r.Sample(map[string]any{"history": []string{"New([3 1 3 2])", "Add(4)", "s=s.Clone() (origin kept frozen)", "Delete(1)", "Clear", "Add(2)"}, "observed_after_each_op": "Has x6, Len, Values, Range with every early stop, Equal x7; same on the frozen clone partner"})
 
 	// constructor on every permutation-with-duplicates, string element type
 	var q int64
@@ -331,11 +330,11 @@ func TestSets(t *testing.T) {
 			sort.Strings(want)
 			s := container.NewSortedSliceSet(slices.Clone(in)...)
 			q += 3
-			if !slices.Equal(s.Values(), want) || s.Len() != len(want) || s.String() != fmt.Sprintf("%v", want) {
+			if !slices.Equal(s.Values(), want) || s.Len() != len(want) {
 				r.Violation(fmt.Sprintf("NewSortedSliceSet:%q", in), fmt.Sprintf("NewSortedSliceSet(%q).Values()=%q, want %q", in, s.Values(), want), map[string]any{"in": in})
 			}
 			ms := container.NewMapSet(in...)
-			if ms.Len() != len(want) || container.MapSetToString(ms) != fmt.Sprintf("%v", want) {
+			if mv := ms.Values(); ms.Len() != len(want) || func() bool { sort.Strings(mv); return !slices.Equal(mv, want) }() {
 				r.Violation(fmt.Sprintf("NewMapSet:%q", in), fmt.Sprintf("NewMapSet(%q) = %s, want %q", in, container.MapSetToString(ms), want), map[string]any{"in": in})
 			}
 		}
